@@ -383,6 +383,16 @@ func (t *tr) ret(r *ast.ReturnStmt) string {
 			return "some (" + strings.Join(parts, ", ") + ")"
 		}
 		return "none"
+	case "errlastbool":
+		// several results, the last one is `error`: true = it is nil
+		if n := len(r.Results); n >= 1 {
+			if id, ok := r.Results[n-1].(*ast.Ident); ok && id.Name == "nil" {
+				return "true"
+			}
+			return "false"
+		}
+		failf(r, "errlastbool: bare return")
+		return ""
 	case "errbool":
 		// a function whose only result is `error`: true = returned nil
 		if len(r.Results) == 1 {
